@@ -78,6 +78,9 @@ def check(ck):
         key = unparse(lp.target.elts[0]) if isinstance(lp.target, ast.Tuple) else "?"
         ck.ob("execute_fields_serially: results are stored under the entry key, in loop order", len(st) == 1 and unparse(st[0].targets[0]) == f"results[{key}]", s,
               st[0] if st else lp, construct="serial:store")
+        from .c01 import serial_twin, _resolve_field_forward
+        serial_twin(ck, repo)
+        _resolve_field_forward(ck, repo)
         init = [n for n in walk_no_nested(s.node) if isinstance(n, ast.Assign) and unparse(n.targets[0]) == "results"]
         ck.ob("execute_fields_serially: the result mapping is a plain dict (insertion order = document order)", len(init) == 1 and unparse(init[0].value) in ("{}", "dict()"), s,
               init[0] if init else s.node, construct="serial:dict")
@@ -90,6 +93,7 @@ def check(ck):
         c02.r1(ck, repo)
         c02.r2(ck, repo)
         c05.field_funnel(ck, repo)
+        c02.operation_catch(ck, repo)
         rf = repo.func(EXE, "resolve_field")
         rv = FuncView(rf)
         c = rv.maybe_call("resolver")
